@@ -9,7 +9,7 @@ from ..model import body_stmts, canon, dotted, kwarg, norm, walk_no_nested
 from . import ilp, nbk
 from .c01 import rule_nullable_index
 from .c04 import array_layout
-from .common import assigned_value, conditions_at, count_if, else_part, enclosing, expand_locals, prog, resolve_local, stores_to
+from .common import assigned_value, backing_field, conditions_at, count_if, else_part, enclosing, expand_locals, prog, resolve_local, stores_to
 
 AVG = "avg_num_annotations_per_annotator"
 
@@ -50,7 +50,8 @@ def rule_alignment_level(ctx: Ctx):
     # Alignment.disorder property
     f = ctx.fn("Alignment.disorder", "R-C03-3")
     sn = f.self_name
-    st = [s for s in walk_no_nested(f.node) if isinstance(s, ast.Assign) and norm(s.targets[0]) == f"{sn}._disorder"]
+    DF = backing_field(M, "Alignment", "disorder", "_disorder")
+    st = [s for s in walk_no_nested(f.node) if isinstance(s, ast.Assign) and norm(s.targets[0]) == f"{sn}.{DF}"]
     ok = False
     if len(st) == 1 and isinstance(st[0].value, ast.BinOp) and isinstance(st[0].value.op, ast.Div):
         num, den = st[0].value.left, st[0].value.right
@@ -58,7 +59,7 @@ def rule_alignment_level(ctx: Ctx):
             norm(num.args[0].generators[0].iter) in (f"{sn}.unitary_alignments", sn) and \
             norm(num.args[0].elt) == f"{norm(num.args[0].generators[0].target)}.disorder"
         ok = okn and norm(den) == f"{sn}.{AVG}"
-    guard = any(isinstance(i, ast.If) and norm(i.test) == f"{sn}._disorder is None" and any(st and st[0] is x for x in ast.walk(i)) for i in walk_no_nested(f.node))
+    guard = any(isinstance(i, ast.If) and norm(i.test) == f"{sn}.{DF} is None" and any(st and st[0] is x for x in ast.walk(i)) for i in walk_no_nested(f.node))
     ctx.check(ok and guard, "R-C03-3", f, st[0] if st else None,
               "Alignment.disorder = sum of the unitary disorders / mean number of units per annotator (computed once when not cached)",
               bad_detail="Alignment.disorder is not sum(unitary disorders) / avg_num_annotations_per_annotator", key="Alignment.disorder")
@@ -79,10 +80,10 @@ def rule_alignment_level(ctx: Ctx):
                 norm(loops[0].body[0].targets[0]) == f"{gs}.unitary_alignments[{i}].disorder" and norm(loops[0].body[0].value) == d
         ctx.check(ok_store, "R-C03-3", g, loops[0] if loops else None, "the i-th recomputed disorder is stored on the i-th unitary alignment",
                   bad_detail="recomputed unitary disorders are not stored position by position", key=f"{qn}:store")
-        st = [s for s in walk_no_nested(g.node) if isinstance(s, ast.Assign) and norm(s.targets[0]) == f"{gs}._disorder"]
+        st = [s for s in walk_no_nested(g.node) if isinstance(s, ast.Assign) and norm(s.targets[0]) == f"{gs}.{DF}"]
         okv = len(st) == 1 and norm(st[0].value) in (f"np.sum({vec}) / {gs}.{AVG}", f"{vec}.sum() / {gs}.{AVG}", f"sum({vec}) / {gs}.{AVG}")
         rets = [r for r in walk_no_nested(g.node) if isinstance(r, ast.Return)]
-        ctx.check(okv and len(rets) == 1 and norm(rets[0].value) == f"{gs}._disorder", "R-C03-3", g, st[0] if st else None,
+        ctx.check(okv and len(rets) == 1 and norm(rets[0].value) == f"{gs}.{DF}", "R-C03-3", g, st[0] if st else None,
                   "recomputed alignment disorder = sum(unitary disorders) / mean number of units per annotator, cached and returned",
                   bad_detail=f"recomputed alignment disorder is `{norm(st[0].value) if st else None}`", key=f"{qn}:value")
     a = ctx.fn(f"Alignment.{AVG}", "R-C03-3")
@@ -187,7 +188,7 @@ def rule_kinds(ctx: Ctx):
                 return "ALIGNMENT"
             return "?"
         if isinstance(e, ast.Attribute):
-            if e.attr in ("disorder", "_disorder"):
+            if e.attr in ("disorder", "_disorder", backing_field(M, "Alignment", "disorder", "_disorder"), backing_field(M, "UnitaryAlignment", "disorder", "_disorder")):
                 t = fl.type_at(e.value)
                 if t is not None and t.name == "UnitaryAlignment":
                     return "UNITARY"
@@ -290,7 +291,7 @@ def rule_kinds(ctx: Ctx):
         for s in walk_no_nested(f.node):
             if isinstance(s, (ast.Assign, ast.AnnAssign)):
                 tg = s.targets[0] if isinstance(s, ast.Assign) else s.target
-                if norm(tg) == f"{sn}._disorder" and s.value is not None:
+                if norm(tg) == f"{sn}.{backing_field(M, 'UnitaryAlignment', 'disorder', '_disorder')}" and s.value is not None:
                     k = kind_of(f, s.value)
                     n += 1
                     if k in ("UNITARY", "NONE") or (k == "PARAM" and f.kind == "setter"):
